@@ -132,9 +132,19 @@ def run(ctx: Ctx):
     for member, value in sorted(enum.items()):
         ctx.check(value in table, "R05.b", gs.key(f"enum::{value}"), f"Scheme.{member} accepted by get_scheme", f"Scheme.{member} = '{value}' is not accepted by get_scheme (falls through to ValueError)", gs.where())
     # the name given to the returned function is the requested name
-    renames = [c for c in ast.walk(gs.node) if isinstance(c, ast.Call) and isinstance(c.func, ast.Attribute) and c.func.attr == "replace" and call_kw(c, "co_name") is not None]
-    ok_name = bool(renames) and all(isinstance(call_kw(c, "co_name"), ast.Name) and call_kw(c, "co_name").id == gs.params[0] for c in renames)
-    ctx.check(ok_name, "R05.b", gs.key("co_name"), "returned function is renamed to the requested scheme name", "get_scheme does not rename the returned function to the requested name (co_name=<scheme parameter>)", gs.where())
+    from sa import av as _avn
+
+    vals = ctx.__dict__.get("_alias_values", {})
+    if not vals:
+        ctx.undecided("R05.b", gs.key("co_name"), "what get_scheme returns is not understood")
+    else:
+        bad_names = []
+        for alias, v in sorted(vals.items()):
+            reps = [c for c in _avn.find_all(v, "mcall") if c[2] == "replace" and "co_name" in dict(c[4])] + [c for c in _avn.find_all(v, "call") if c[1].endswith(".replace") and "co_name" in dict(c[3])]
+            names = {dict(c[4] if c[0] == "mcall" else c[3])["co_name"] for c in reps}
+            if names != {_avn.C(alias)}:
+                bad_names.append((alias, sorted(_avn.show(n) for n in names)))
+        ctx.check(not bad_names, "R05.b", gs.key("co_name"), "returned function is renamed to the requested scheme name", f"get_scheme does not rename the returned function to the requested name (co_name: {bad_names[:3]})", gs.where())
     cg = sm.func("codegen/base.py", "CodeGenerator.scheme")
     tcalls = [c for c in find_calls(cg.node, "template.method")]
     ctx.require(tcalls, "CodeGenerator.scheme no longer calls self.template.method")
@@ -143,18 +153,21 @@ def run(ctx: Ctx):
     ok = nm is not None and norm(nm) in (f"{fparam}.__code__.co_name", f"{fparam}.__name__")
     ctx.check(ok, "R05.b", cg.key("method-name"), "generated function is named after the scheme function's code name", f"CodeGenerator.scheme names the generated function {norm(nm) if nm is not None else None!r}, not the scheme function's name", cg.where(tcalls[0]))
 
-    stores = [n for n in ast.walk(gs.node) if isinstance(n, (ast.Assign, ast.AugAssign)) and any(isinstance(t, ast.Attribute) for t in (n.targets if isinstance(n, ast.Assign) else [n.target]))]
     builders = set(table.values())
     bad = []
-    for n in stores:
-        for t in n.targets if isinstance(n, ast.Assign) else [n.target]:
-            root = t
-            while isinstance(root, (ast.Attribute, ast.Subscript)):
-                root = root.value
-            if isinstance(root, ast.Name):
-                vals = {norm(a.value) for a in ast.walk(gs.node) if isinstance(a, ast.Assign) and any(isinstance(x, ast.Name) and x.id == root.id for x in a.targets)}
-                if root.id in builders or (vals and vals <= builders):
+    for fn_, obj, attr, _val, node_ in ctx.__dict__.get("_alias_attr_stores", []):
+        if obj[0] == "sym" and obj[1].split(".")[0] in builders:
+            bad.append(f"{obj[1]}.{attr} = ...")
+    # stores through a subscript / attribute chain rooted at a builder name (e.g. builder.__dict__[...])
+    for n in ast.walk(gs.node):
+        if isinstance(n, (ast.Assign, ast.AugAssign)):
+            for t in n.targets if isinstance(n, ast.Assign) else [n.target]:
+                root = t
+                while isinstance(root, (ast.Attribute, ast.Subscript)):
+                    root = root.value
+                if root is not t and isinstance(root, ast.Name) and root.id in builders:
                     bad.append(norm(n)[:70])
+    bad = sorted(set(bad))
     ctx.check(not bad, "R05.b", gs.key("no-in-place-rename"), "the module-level builder is not modified", f"get_scheme modifies the module-level builder itself ({bad}): after another alias has been requested the same builder generates a function under the wrong name", gs.where())
 
     # ---- R05.c inputs untouched / result array -------------------------------------
